@@ -57,17 +57,23 @@ class Run:
         logging.disable(logging.CRITICAL)
         from harness.engine_env import Env
         self.env = Env("\n".join(method_lines) + "\n")
+        self.scheduled = []
+        self.thr_wait = set()
+        self.cond_true = set()
+        self.cond_err = set()
+        self.wire()
+        self.t = 0.0
+        self.n = 0
+
+    def wire(self):
+        """(re-)attach to the engine's current interpreter: node table, scripted thresholds and conditions"""
         e = self.env.engine
         self.interp = e.interpreter
         self.interp.tracking.enable()
         self.table = node_table(self.interp._program)
         self.index = {id(n): k for k, (n, _) in enumerate(self.table)}
         self.byid = {n.id: k for k, (n, _) in enumerate(self.table)}
-        self.scheduled = []
         run = self
-        self.thr_wait = set()
-        self.cond_true = set()
-        self.cond_err = set()
 
         def schedule_execution(name, arguments="", instance_id=None):
             run.scheduled.append(name)
@@ -88,8 +94,6 @@ class Run:
                 raise ValueError("scripted condition error")
             return k in run.cond_true
         interp._evaluate_condition = evaluate
-        self.t = 0.0
-        self.n = 0
 
     def tick(self, op):
         interp = self.interp
